@@ -376,6 +376,8 @@ class Planner:
                     script[key] = 'false'
         if script:
             op['script'] = script
+            if any(v in ('abort', 'abort_base') for v in script.values()) and fr.random() < 0.5:
+                op['keep_exc'] = True       # the caller holds on to the exception of the abandoned call
             rec2 = self.ref(op)
             steps += rec2['steps']
         if terminated:
@@ -992,6 +994,7 @@ def simulate(plan, schedule=None, wall_timeout=120.0, attach=None):
             attach.detach(env)
         U.purge_registry()
         env.handles.clear()
+        del env.kept[:]
         env.last_raw.clear()
         gc.collect()
         if gc_was:
